@@ -170,7 +170,7 @@ func chanCheck(o checkOpts) int {
 	}
 	jobs := o.jobs
 	per := (runsTotal + jobs - 1) / jobs
-	replayDir := filepath.Join(verifRoot, "replays")
+	replayDir := replaysDir()
 	rev := repoRev()
 	stats := make([]*workerStats, jobs)
 	outs := make([]cmdResult, jobs)
